@@ -320,6 +320,13 @@ fn x_tok(r: &mut Rng) -> f32 {
     }
 }
 
+/// is the integer token exactly representable in f32? (the lerp laws are stated for such values)
+fn tok_f32_exact(kind: &str, tok: &str) -> bool {
+    if kind == "f32" { return true; }
+    let v: i128 = tok.parse().unwrap();
+    (v as f32) as i128 == v && ((v as f32) as f64) == v as f64
+}
+
 fn gen_lerp(r: &mut Rng, n: usize, out: &mut dyn Write, exhaustive8: bool) {
     if exhaustive8 {
         for kind in ["u8", "i8"] {
@@ -343,9 +350,11 @@ fn gen_lerp(r: &mut Rng, n: usize, out: &mut dyn Write, exhaustive8: bool) {
         let x = x_tok(r);
         writeln!(out, "lerp {} {} {} {}", kind, a, c, b(x)).unwrap();
         let inrange = (0.0..=1.0).contains(&x);
+        let exact = tok_f32_exact(kind, &a) && tok_f32_exact(kind, &c);
+        if !exact { continue; }
         if x == 0.0 { writeln!(out, "# expect C14 1 0={}", a).unwrap(); }
-        if x == 1.0 { writeln!(out, "# expect C14 1 0={}", c).unwrap(); }
-        if a == c && kind != "f32" && inrange { writeln!(out, "# expect C14 1 0={}", a).unwrap(); }
+        else if x == 1.0 { writeln!(out, "# expect C14 1 0={}", c).unwrap(); }
+        else if a == c && inrange { writeln!(out, "# expect C14 1 0={}", a).unwrap(); }
         if r.chance(1, 4) {
             // f64: arbitrary doubles
             let fa = (r.unit_f32() as f64 - 0.5) * 10f64.powi(r.below(20) as i32 - 10);
